@@ -4,6 +4,7 @@ package main
 // or plain lines (in /verif/spec/*.spec). See DESIGN.md §3.3.
 
 import (
+	"crypto/sha1"
 	"crypto/sha256"
 	"fmt"
 	"os"
@@ -754,7 +755,10 @@ func parseClause(rest, pos string) (*Clause, error) {
 	}
 	cl.Expr = e
 	if cl.Label == "" {
-		cl.Label = fmt.Sprintf("L%s", pos[strings.LastIndex(pos, ":")+1:])
+		// stable default label: a short digest of the clause text, so that adding or
+		// removing lines elsewhere in a contract file does not rename obligations
+		sum := sha1.Sum([]byte(strings.Join(strings.Fields(rest), "")))
+		cl.Label = fmt.Sprintf("u%x", sum[:3])
 	}
 	return cl, nil
 }
